@@ -177,7 +177,7 @@ RawS(c) == IF IsPlain(c) THEN PlainS(c) ELSE IF c \in DOMAIN RawPunct THEN RawPu
            ELSE IF c = 34 THEN "\"" ELSE IF c = 39 THEN "'" ELSE "["
 \* st.raw: write characters raw where allowed; st.esc: escape style otherwise.
 \* afterHex: previous spelling was a hex escape, whose digit run is greedy.
-IsHexForm(c, esc) == esc \in {"hex", "HEX"} \/ (esc = "octal" /\ c >= 256)
+IsHexForm(c, esc) == esc \in {"hex", "HEX"} \/ (esc \in {"octal", "octshort"} /\ c >= 256)
                      \/ (esc = "named" /\ c \notin DOMAIN Named /\ c >= 128)
 \* In case-insensitive contexts ("dq": inside "...", "cci": inside [[...]]) a letter is case-insensitive only
 \* when written raw (an escape always denotes exactly its code point), so letters stay raw there whatever
